@@ -6,9 +6,14 @@ definitions (access_ok, bad_accesses) on the regenerated table, and fills the
 evidence.  Known findings (KNOWN_FINDINGS.txt keys) are reported too; the
 driver prints them as KNOWN-FINDING lines.
 """
+import hashlib
 import json
 import os
 import re
+
+
+def _hid(prefix, key):
+    return "%s-%s" % (prefix, hashlib.sha1(key.encode()).hexdigest()[:8])
 
 
 def _coq_eval(ctx):
@@ -207,7 +212,7 @@ def _stress(ctx, tbl, known, race, millis, seed):
                     " (site also flagged by the lock table)" if flagged else
                     " (the lock table calls both sites safe: translator gap or field outside the guard map)"),
                          finding_key=flagged[0] if flagged else "race:" + "|".join(sig), failing_input_found=True,
-                         detail={"case": {"id": "race-%d-%d" % (seed, ci), "seed": seed,
+                         detail={"case": {"id": _hid("race", "|".join(sig)), "seed": seed,
                                           "desc": {"kind": "race", "seed": seed, "reports": cnt, "stack_pair": [s[2] for s in st]}}})
         stats.update({"race_reports": sum(c[0] for c in clusters.values()), "race_clusters": len(clusters),
                       "race_clusters_at_known_sites": n_known, "race_clusters_new": n_new,
@@ -252,7 +257,7 @@ def extra(ctx):
             "write" if a.get("write") else "read", a.get("field", key.split("@")[0]), a.get("fn", "?"), pos,
             " + ".join(a.get("guard") or ["?"]), " in write mode" if a.get("write") else "", ", ".join(a.get("held") or []) or "nothing", a.get("root", "?"))
         ctx.fail("property-failure", what, finding_key=key, failing_input_found=True,
-                 detail={"case": {"id": "access-%d" % i, "desc": {"kind": "unguarded access", "key": key, "pos": pos,
+                 detail={"case": {"id": _hid("access", key), "desc": {"kind": "unguarded access", "key": key, "pos": pos,
                                                                    "access": a}}})
 
     # ---- lock order: cycles among the pairs that are not known findings
@@ -279,7 +284,7 @@ def extra(ctx):
             o["fn"], o["acq"], "write" if o["acq_w"] else "read", o["pos"], o["held"], "write" if o["held_w"] else "read",
             "re-entrant acquisition" if o["held"] == o["acq"] else "lock-order cycle among " + ", ".join(cyc), o["root"])
         ctx.fail("property-failure", what, finding_key=k, failing_input_found=True,
-                 detail={"case": {"id": "order-%d" % i, "desc": {"kind": "lock order", "key": k, "pair": o, "cycle": cyc}}})
+                 detail={"case": {"id": _hid("order", k), "desc": {"kind": "lock order", "key": k, "pair": o, "cycle": cyc}}})
     # known order findings still present: let the driver print them
     for o in orders:
         k = okey(o)
